@@ -24,9 +24,9 @@ RULE = ("seeded histories over pools of user arrays (own memory / F / strided vi
         "release; distinct = hash of the (lock|unlock) event-role sequence = interleavings seen.")
 ASSUMPTIONS = ["between 'upstream partly cleared' and 'operation dead' the flag is unspecified and not judged",
                "internal table residue (_array_tracker) is not judged, only flags"]
-TIERS = {"quick": {"cases": 2500, "nst": (4, 14), "gcinject": 0.0}, "thorough": {"cases": 60000, "nst": (6, 30), "gcinject": 0.15}}
+TIERS = {"quick": {"cases": 2500, "nst": (4, 14), "gcinject": 0.0}, "thorough": {"cases": 16000, "nst": (6, 30), "gcinject": 0.04}}
 FLOORS = {"quick": {"I1_evals": 20000, "I2_evals": 40000, "quiescent_arrays": 8000},
-          "thorough": {"I1_evals": 500000, "I2_evals": 1000000, "quiescent_arrays": 200000}}
+          "thorough": {"I1_evals": 300000, "I2_evals": 500000, "quiescent_arrays": 40000}}
 
 UN = ["exp", "sin", "tanh", "negative", "square"]
 BI = ["add", "multiply", "subtract", "maximum"]
@@ -322,8 +322,6 @@ def exec_stmt(env, mon, s, guarded):
         _, tgt, how, val = s
         t = env[tgt]
         v = env[val] if val is not None else 2.0
-        if isinstance(v, np.ndarray):
-            mon.see(v, val)
         if how == "setitem":
             t[...] = v
         elif how == "iadd":
@@ -332,6 +330,10 @@ def exec_stmt(env, mon, s, guarded):
             t *= v
         else:
             mg.multiply(t, v, out=t)
+        if isinstance(v, np.ndarray):
+            # the in-place kernel runs unguarded and locks its operands only once it has succeeded: a value array enters
+            # I2's range only then (a user view that merely inherited a lock and was never locked by MyGrad cannot be restored by it)
+            mon.see(v, val)
         mon.see(t.data, tgt, orig=True)
     elif k == "fail":
         _, tname, aname = s
